@@ -1,11 +1,20 @@
-"""T-tie: regenerate coq/theories/Generated/*.v from /repo's working tree (fail-closed)."""
+"""T-tie: regenerate coq/theories/Generated/*.v from /repo's working tree (fail-closed).
+
+A translator is a module tools/translate/tr_<name>.py with
+    OUTFILE = 'Xxx.v'                 file written under coq/theories/Generated/
+    translate(repo: Path) -> obj      parse the source (ast whitelist; raise TranslateError on anything else)
+    self_check(repo: Path, obj)       compare what was parsed with the live objects imported from /repo (raise on mismatch)
+    emit(obj) -> str                  Coq text
+It may also tabulate a finite-domain control function by running it (DESIGN.md 2.4).
+"""
 import importlib
 from pathlib import Path
 
-# translator name -> (module, output file)
-REGISTRY = {
-    'models': ('translate.tr_models', 'HwLut.v'),
-}
+HERE = Path(__file__).resolve().parent
+
+
+def registry():
+    return sorted(p.stem[3:] for p in HERE.glob('tr_*.py'))
 
 
 def run_translators(names, repo, outdir):
@@ -15,10 +24,10 @@ def run_translators(names, repo, outdir):
     outdir = Path(outdir)
     outdir.mkdir(parents=True, exist_ok=True)
     for name in names:
-        modname, fname = REGISTRY[name]
-        path = outdir / fname
+        path = None
         try:
-            mod = importlib.import_module(modname)
+            mod = importlib.import_module(f'translate.tr_{name}')
+            path = outdir / mod.OUTFILE
             out = mod.translate(Path(repo))
             mod.self_check(Path(repo), out)
             text = mod.emit(out)
